@@ -62,7 +62,7 @@ class ExecBase:
         return ty.fresh("%s!%d" % (name, self.counter))
 
     # ------------------------------------------------------------ obligations
-    def oblige(self, st, kind, label, goal, line=None, assume=True, decode=None):
+    def oblige(self, st, kind, label, goal, line=None, assume=True, decode=None, undecidable=None):
         """Emit the obligation pc => goal; afterwards the path continues under goal."""
         if self.spec or self.no_oblige:
             return
@@ -75,7 +75,12 @@ class ExecBase:
             goal = z3.Or(region, goal)
             self.known_used.add(kf["obligation"])
         g = z3.simplify(goal) if not isinstance(goal, bool) else z3.BoolVal(goal)
-        if not z3.is_true(g):
+        if undecidable:
+            # the clause cannot be evaluated on this code (it names a local the code does not bind): neither discharged nor
+            # refuted by the solvers - reported undecided unless the contract's replay finds a failing input on the real code
+            self.obls.append(Obl(self.oname(kind, label, line), kind, label, line, st.pc, z3.BoolVal(False),
+                                 info={"undecidable": undecidable}, decode=decode or self.decode_terms(st)))
+        elif not z3.is_true(g):
             self.obls.append(Obl(self.oname(kind, label, line), kind, label, line, st.pc, goal,
                                  decode=decode or self.decode_terms(st)))
         else:
